@@ -16,6 +16,7 @@ fits the code's int32 arithmetic (5 + Σ(8+|k|+|v|) < 2^31).
 import FV.Model.Headers
 import FV.Spec.V0Layout
 import FV.Proofs.Headers
+import FV.Proofs.Context
 
 namespace FV.C04
 open FV
@@ -163,5 +164,76 @@ example : Small [([102, 111, 111], [98, 97, 114]), ([95, 99, 105, 100], [])] ∧
   constructor
   · unfold Small; decide
   · decide
+
+/-! ### The FProtocol layer: `ReadRequestHeader` / `ReadResponseHeader` on ANY written map
+
+The codec theorems above are about `marshalHeaders` / `unmarshalHeaders`; what a handler or a caller
+actually sees is the FContext that `FProtocol.ReadRequestHeader` / `ReadResponseHeader` build from the
+decoded map (model: FV.Model.Context, shared with C09). C09 states this for contexts built by
+`NewFContext`; here the map is ARBITRARY (a hand-built frame, a non-Go peer, no `_cid`, no `_timeout`):
+the reader adds nothing that was not on the wire and drops nothing except the wire `_opid`, which the
+receiving side replaces by a fresh one by design. -/
+
+/-- `ReadRequestHeader` over the bytes written for ANY map with distinct names that carries an `_opid`:
+the context's request headers are exactly the written ones with `_opid` replaced by the fresh op id,
+its response headers are the reply ids, and the payload that follows is untouched. -/
+theorem c04_read_request_header (hs : Hdrs) (p o : Bytes) (ctr : Nat)
+    (hnd : hs.keys.Nodup) (h : Small hs) (ho : hs.get? opIdHeader = some o) :
+    readRequestHeader (marshal hs ++ p) ctr =
+      .ok (⟨hs.without opIdHeader ++ [(opIdHeader, natDigits (ctr + 1))],
+            replyIds o ((hs.get? cidHeader).getD [])⟩, p) := by
+  exact readRequestHeader_ok _ p hs ctr _ (c04_stream_roundtrip hs p hnd h) (serverCtx_eq hs (ctr + 1) o hnd ho)
+
+/-- Read as a map: every name other than `_opid` has exactly the written value — nothing is injected
+(no default `_timeout`, no generated `_cid`) and nothing is lost. -/
+theorem c04_read_request_header_identical (hs : Hdrs) (p o : Bytes) (ctr : Nat)
+    (hnd : hs.keys.Nodup) (h : Small hs) (ho : hs.get? opIdHeader = some o) :
+    ∃ c, readRequestHeader (marshal hs ++ p) ctr = .ok (c, p) ∧
+      (∀ k, k ≠ opIdHeader → c.req.get? k = hs.get? k) ∧
+      c.req.keys.Perm ((hs.without opIdHeader).keys ++ [opIdHeader]) := by
+  refine ⟨_, c04_read_request_header hs p o ctr hnd h ho, ?_, ?_⟩
+  · intro k hk
+    have hnm : opIdHeader ∉ (hs.without opIdHeader).keys := Hdrs.not_mem_without hs opIdHeader
+    have e : hs.without opIdHeader ++ [(opIdHeader, natDigits (ctr + 1))]
+        = (hs.without opIdHeader).set opIdHeader (natDigits (ctr + 1)) := (Hdrs.set_fresh _ _ _ hnm).symm
+    show (hs.without opIdHeader ++ [(opIdHeader, natDigits (ctr + 1))]).get? k = _
+    rw [e, Hdrs.get?_set_other _ _ _ _ (fun e' => hk e'.symm), Hdrs.get?_without_other _ _ _ (fun e' => hk e'.symm)]
+  · simp [Hdrs.keys]
+
+/-- `ReadResponseHeader(ctx)` over the bytes written for ANY map with distinct names: every written
+header except `_opid` is on the caller's context afterwards with the written value, headers the context
+held under other names are kept, the context's own `_opid` entry and its request headers are not
+touched, and the payload is untouched. -/
+theorem c04_read_response_header (c : Ctx) (hs : Hdrs) (p : Bytes) (hnd : hs.keys.Nodup) (h : Small hs) :
+    ∃ c', readResponseHeader c (marshal hs ++ p) = .ok (c', p) ∧ c'.req = c.req ∧
+      (∀ k v, k ≠ opIdHeader → hs.get? k = some v → c'.resp.get? k = some v) ∧
+      (∀ k, hs.get? k = none → c'.resp.get? k = c.resp.get? k) ∧
+      c'.resp.get? opIdHeader = c.resp.get? opIdHeader := by
+  have hw := Hdrs.nodup_without hs opIdHeader hnd
+  refine ⟨mergeResponse c hs, ?_, rfl, ?_, ?_, ?_⟩
+  · exact readResponseHeader_ok c _ p hs (c04_stream_roundtrip hs p hnd h)
+  · intro k v hk hg
+    have hg' : (hs.without opIdHeader).get? k = some v := by
+      rw [Hdrs.get?_without_other _ _ _ (fun e => hk e.symm)]; exact hg
+    have hm : (k, v) ∈ hs.without opIdHeader := (Hdrs.get?_eq_some_iff _ hw k v).mp hg'
+    exact Hdrs.get?_setAll_mem _ k v hw hm _
+  · intro k hg
+    have hk : k ∉ (hs.without opIdHeader).keys := by
+      intro hm
+      have : k ∈ hs.keys := (Hdrs.without_keys_sublist hs opIdHeader).subset hm
+      obtain ⟨v, hv⟩ : ∃ v, hs.get? k = some v := by
+        simp only [Hdrs.keys, List.mem_map] at this
+        obtain ⟨⟨k', v'⟩, hm', rfl⟩ := this
+        exact ⟨v', (Hdrs.get?_eq_some_iff hs hnd k' v').mpr hm'⟩
+      rw [hg] at hv; cases hv
+    exact Hdrs.get?_setAll_not_mem _ k hk _
+  · exact Hdrs.get?_setAll_not_mem _ opIdHeader (Hdrs.not_mem_without hs opIdHeader) _
+
+/-- Non-vacuity for the FProtocol theorems: a hand-built request map WITHOUT `_cid` and `_timeout`
+(one user header and `_opid`) meets the hypotheses. -/
+example : Small [([120], [121]), (opIdHeader, [55])] ∧
+    (Hdrs.keys [([120], [121]), (opIdHeader, [55])]).Nodup ∧
+    Hdrs.get? [([120], [121]), (opIdHeader, [55])] opIdHeader = some [55] := by
+  refine ⟨by unfold Small; decide, by decide, by decide⟩
 
 end FV.C04
